@@ -4,6 +4,7 @@ CONSTANTS
   MaxSock = 0
   MaxEv = 0
   MaxUnsol = 1000
+  Limit = 1
   Timed = TRUE
 CONSTRAINT TConstraint
 INVARIANT OwnResponse
